@@ -1,5 +1,5 @@
 From Coq Require Import QArith Qcanon.
-From Raptor Require Import Base.Sums Sparse.Defs Extract.Inst Dist.Comm Dist.ParMat Dist.Tap Dist.Net Extract.Inst_dist.
+From Raptor Require Import Base.Sums Sparse.Defs Extract.Inst Dist.Comm Dist.ParMat Dist.ParConv Dist.Tap Dist.Net Extract.Inst_dist.
 Require Import ExtrOcamlBasic.
 Extraction Language OCaml.
 Extraction "model_dist.ml"
@@ -9,4 +9,6 @@ Extraction "model_dist.ml"
   coo_to_csr csr_to_coo q_csr_spmv q_csr_spmv_append q_csr_mult_T q_csr_residual
   mkTap mkTapW tap_forward tap_fwd_ok tap_reverse tap_rev_ok
   phases_ok trace_ok dests_in_rangeb Barrier EvBarrier
-  q_assemble_all q_par_mult q_par_mult_append q_par_residual q_par_mult_T rs_colmap.
+  q_assemble_all q_par_mult q_par_mult_append q_par_residual q_par_mult_T rs_colmap
+  q_par_transpose q_par_add_local q_par_csr_to_coo q_par_csr_to_csc q_par_csr_to_csr q_par_coo_to_csr q_par_coo_to_csc
+  q_par_coo_to_coo q_par_csc_to_csr q_par_csc_to_coo q_par_csc_to_csc.
